@@ -197,3 +197,59 @@ Print Assumptions C08_ssa_checked_event_row.
 Print Assumptions C08_ssa_checked_style_row.
 Print Assumptions C08_ssa_event_row_empty_format_panics.
 Print Assumptions C08_ssa_unguarded_callback_panics.
+(* ---- EBU STL, checked transcriptions (audit item: "the stl model contains no Panic constructor, so its no-panic theorems
+   are true by construction").  Model/StlC.v transcribes stl.go with every run-time panic site as a CHECKED operation behind
+   the code's own guard - slice index b[i] and slicing b[lo:hi] in parseGSIBlock / parseTTIBlock / parseDurationSTL(Bytes)
+   (guard: readNBytes returns exactly 1024 / 128 bytes or an error; the len(i) < 8 test), the integer division by the frame
+   rate (guard: the frame rate comes from stlFramerateMapping, whose values are non-zero: generated table, re-checked each
+   run) and by MaxRows (guard MaxRows > 0), nil dereferences (s.Metadata, the optional metadata fields, the running line
+   item's InlineStyle, the justification and position pointers), s.Items[0] (guard len > 0), the diacritic swap
+   o[len(o)-1] (guard len(o) == 0), and the type assertions on values fetched from the BiMaps (guard: the ok of the lookup;
+   the dynamic types of ALL stored values are probed from the code on every run: Gen/StlTables.v stl_*_tags) - with the Go
+   line number as panic site.  Proofs/StlChk.v: the checked functions equal the pattern-matching model on ALL inputs and
+   never return Panic; the content of each equation is that the guard implies the access is in range / non-nil / non-zero /
+   of the asserted type.  The driver runs the checked functions.  Model/StlCW.v does the same for the writer's two-level
+   nil tests on the cue list (Item.InlineStyle / STLJustification / STLPosition, LineItem.InlineStyle / *bool).
+   The C08_stl_unguarded_* examples show that dropping a guard makes a site reachable.  Boundary of the model, as for the
+   other writers (notes/C01.md): a nil *Item inside the cue list is dereferenced without a guard (C08_stl_unguarded_nil_item). *)
+From Coq Require Import ZArith.
+From Astisub Require Import Kit.Chk Gen.StlTables Model.StlC Proofs.StlChk Model.StlCW Proofs.StlChk2.
+Theorem C08_stl_checked_reader_total : forall (ign : bool) (data : list N) (p : N), read_stl_c ign data <> Panic p.
+Proof. exact read_stl_c_no_panic. Qed.
+Theorem C08_stl_checked_writer_total : forall now md items (p : N), write_stl_c now md items <> Panic p.
+Proof. exact write_stl_c_no_panic. Qed.
+Theorem C08_stl_checked_reader_agrees : forall ign data, read_stl_c ign data = read_stl ign data.
+Proof. exact read_stl_c_ok. Qed.
+Theorem C08_stl_checked_writer_agrees : forall now md items, write_stl_c now md items = write_stl now md items.
+Proof. exact write_stl_c_ok. Qed.
+Theorem C08_stl_checked_gsi_block : forall b, length b = 1024%nat -> parse_gsi_c b = parse_gsi b.
+Proof. exact parse_gsi_c_ok. Qed.
+Theorem C08_stl_checked_tti_block : forall (p : list N) (fps : Z), length p = 128%nat -> fps <> BinNums.Z0 -> parse_tti_c p fps = Ok (parse_tti p fps).
+Proof. exact parse_tti_c_ok. Qed.
+Theorem C08_stl_checked_cue_list : forall (l : list gitem) (p : N), items_c (map Some l) = Ok (map item_flat l) /\ items_c (map Some l) <> Panic p.
+Proof. intros l p. split; [apply items_c_ok | apply items_c_no_panic]. Qed.
+(* the tables the guards rely on, from the code of this run *)
+Theorem C08_stl_checked_tables :
+  forallb (fun kv => negb (snd kv =? 0)%Z) stl_framerate = true /\
+  forallb (fun kt => snd kt =? tag_string)%N stl_table_tags = true /\ forallb (fun kv => o_some (alookup (fst kv) stl_table_tags)) stl_table = true /\
+  forallb (fun kt => snd kt =? tag_int)%N stl_framerate_tags = true /\ forallb (fun kt => snd kt =? tag_string)%N stl_language_tags = true.
+Proof. exact (conj stl_framerate_nonzero (conj stl_table_tags_string (conj stl_table_tags_cover (conj stl_framerate_tags_int stl_language_tags_string)))). Qed.
+(* a guard dropped: the site behind it is reachable *)
+Example C08_stl_unguarded_block_length : parse_gsi_c (repeat 32%N 10%nat) = Panic 431 /\ parse_tti_c (repeat 32%N 100%nat) 25%Z = Panic 774.
+Proof. split; [exact gsi_short_block_panics | exact tti_short_block_panics]. Qed.
+Example C08_stl_unguarded_metadata : forall now items, new_gsi_unguarded now None items = Panic 382.
+Proof. exact gsi_unguarded_metadata_panics. Qed.
+Example C08_stl_unguarded_frame_rate : forall f, frames_ns_c f BinNums.Z0 = Panic 643.
+Proof. exact frames_zero_rate_panics. Qed.
+Example C08_stl_unguarded_leading_mark : enc_step_unguarded [] 768 = Panic 1060 /\ enc_step_c [] 768 = Ok [193%N].
+Proof. split; [exact enc_unguarded_leading_mark_panics | exact enc_guarded_leading_mark]. Qed.
+Example C08_stl_unguarded_nil_item : items_c [None] = Panic 702.
+Proof. exact items_c_nil_item. Qed.
+Print Assumptions C08_stl_checked_reader_total.
+Print Assumptions C08_stl_checked_writer_total.
+Print Assumptions C08_stl_checked_reader_agrees.
+Print Assumptions C08_stl_checked_writer_agrees.
+Print Assumptions C08_stl_checked_gsi_block.
+Print Assumptions C08_stl_checked_tti_block.
+Print Assumptions C08_stl_checked_cue_list.
+Print Assumptions C08_stl_checked_tables.
